@@ -227,7 +227,14 @@ def stub_cases(tier):
     nmax, k = (2000, 32) if tier == "quick" else (5000, 60)
     out = []
     for n in range(100, nmax + 1):
-        for j, rm in enumerate(rho_grid(k)):
+        # rho_max values constructed to land the published N on chosen targets, in particular the
+        # regimes with only one or two rounds per half phase (N = n/2, n/2 - 1, n/3, n/4)
+        lg = math.log((n / 2) / math.log(n / 2))
+        extra = []
+        for Nt in (n // 2, n // 2 - 1, n // 3, n // 4):
+            Dmax = 2 * (Nt - 0.5) / lg
+            extra.append(round(2.0 ** (-1.0 / Dmax), 9))
+        for j, rm in enumerate(rho_grid(k) + extra):
             out.append({"n": n, "rhomax": rm, "base": ("T_HOO", "HCT", "VHCT")[(n + j) % 3], "seed": j,
                         "law": "neg" if (n + j) % 5 == 0 else "pos"})
     return out
